@@ -54,6 +54,10 @@ def enumerate_cases(tier):
     for mtu in range(24, 331) if tier != 'quick' else itertools.chain(range(24, 80), range(250, 300)):
         for plen in (3 * mtu + 7, 700):
             yield {'mtu': mtu, 'sends': [{'plen': plen, 'seed': 3, 'peer': 1}], 'ops': [['d', 1, 0]], 'queries': ['pop'], 'poll': False}
+    # transfers of more than 64 KiB whose late segments (offsets beyond 65536) arrive before their predecessors
+    for mtu, plen in ((1200, 70000), (9000, 100000)):
+        for ops in ([['d', -1, 0]], [['d', -2, 0], ['d', -1, 0]], [['d', -1, 0]] * 70, [['d', -3, 0], ['d', 0, 0], ['d', -1, 0]]):
+            yield {'mtu': mtu, 'sends': [{'plen': plen, 'seed': 4, 'peer': 1}], 'ops': ops, 'queries': ['pop'], 'poll': False}
     # two agents behind one address (different source ports), both numbering their first transfer 0, interleaved
     for perm in itertools.permutations(range(4)):
         ops = []
